@@ -894,8 +894,12 @@ fn exec_res(line: &str, t: &[&str], rec: &mut Recorder) {
                 // a client that gave up (depth limit, unreachable / refusing servers) leaves a partial cache state
                 // that depends on the interleaving: the probes then have no deterministic model side
                 let unstable = outs[w..(w + b_).min(outs.len())].iter().any(|x| x.class == "err" || x.class == "limit");
+                // with lowered limits a client's outcome depends on what the other clients have cached meanwhile
+                let tight = case.nl < 24 || case.rl < 24;
                 if k < w {
                     fmt_outcome(&case, o)
+                } else if tight {
+                    (if k < w + b_ { "B:~" } else { "P:~" }).to_string()
                 } else if k < w + b_ {
                     format!("B:{}", fmt_short(o))
                 } else if unstable {
